@@ -117,8 +117,15 @@ class Ref:
         fails: List[Fail] = []
         if name == spec.input:
             kwargs = dict(self.inputs)
+        # Readers outside a recurrent subgraph see the FINAL iteration's values (C03: never "a value from a
+        # superseded iteration"): parameters that lead to a recurrent destination are resolved first, so that
+        # every other reader is evaluated after the subgraph has finished iterating.
+        order = sorted(range(len(nd.params)), key=lambda i: self._rec_rank(nd.params[i][1]))
+        results: Dict[int, Any] = {}
+        for idx in order:
+            results[idx] = self._eval_mark(name, idx, nd.params[idx][1])
         for idx, (pname, m) in enumerate(nd.params):
-            r = self._eval_mark(name, idx, m)
+            r = results[idx]
             if isinstance(r, Fail):
                 fails.append(r)
             else:
@@ -137,6 +144,24 @@ class Ref:
         if nd.takes_ad and name in self.ad:
             kwargs["additional_data"] = self.ad[name]
         return self._invoke(nd, kwargs)
+
+    def _rec_rank(self, m: Any) -> int:
+        """0: a RecurrentSubGraph mark; 1: a mark whose sub-pipeline contains a recurrent destination; 2: others."""
+        if isinstance(m, Rec):
+            return 0
+        if not self.rec_of:
+            return 2
+        tg: List[str] = []
+        if isinstance(m, In):
+            tg = [m.node]
+        elif isinstance(m, Sw):
+            tg = [m.switch] + [c for _, c in m.cases]
+        elif isinstance(m, OneOf):
+            tg = list(m.nodes)
+        for t in tg:
+            if t in self.rec_of or any(a in self.rec_of for a in self.spec.ancestors(t)):
+                return 1
+        return 2
 
     def _eval_mark(self, owner: str, idx: int, m: Any) -> Any:
         if isinstance(m, In):
